@@ -7,12 +7,21 @@
 From Tramp Require Import Model.Base Model.Fee Model.Classify Model.Node Model.Provider Model.Sys.
 From Tramp Require Import Proofs.SysBasics Proofs.EntryProofs Proofs.SysEntry Proofs.SysShape Proofs.SysTheorems Proofs.SysTimers Proofs.SysReach.
 
-(* in ANY state (reachable or not) and for ANY event: either nobody is answered, or EVERY HTLC held for the hash
-   (the one just arriving included) is answered in this very step with one and the same response, and the entry is gone *)
+(* in ANY state (reachable or not) and for ANY event (= task segment): either nobody is answered, or EVERY HTLC held for
+   the hash is answered in this very step with one and the same response, and the entry is gone. The handle_htlc segment
+   itself (EvHtlc) answers nobody; the lifecycle's look at its queues (EvPoll) is its own event, so later HTLCs may
+   overtake it — they then simply belong to the set that is answered together. *)
 Theorem C07_same_resolution : forall c s ev,
   resps (snd (step c s ev)) = [] \/
   exists r, resps (snd (step c s ev)) = map (fun h => OResp (hid h) r) (held c s ev) /\ entry_ (pl (fst (step c s ev))) = None.
 Proof. exact step_same_resolution. Qed.
+
+(* at the granularity of a runtime that runs to quiescence (HTLC segment + poll back to back): the arriving HTLC is
+   among the ones answered together *)
+Theorem C07_same_resolution_at_arrival : forall c s h sel,
+  resps (snd (step_htlc c s h sel)) = [] \/
+  exists r, resps (snd (step_htlc c s h sel)) = map (fun x => OResp (hid x) r) (h :: held c s (EvHtlc h)) /\ entry_ (pl (fst (step_htlc c s h sel))) = None.
+Proof. exact step_htlc_same_resolution. Qed.
 
 (* a rejection in a still-incomplete set (no ready signal queued, lifecycle has not started to pay) dooms the set ... *)
 Theorem C07_rejection_dooms : forall c s h e,
